@@ -156,6 +156,27 @@ fn main() {
             );
             println!("{}", serde_json::to_string_pretty(&sc).unwrap());
         }
+        Some("dump-traces") => {
+            // interpreter traces (address + bytes of every executed instruction) for cross-validation
+            let profile = arg(&args, "--profile").unwrap().to_string();
+            let variant = arg(&args, "--variants").unwrap().to_string();
+            let seed: u64 = arg(&args, "--seed").unwrap_or("1").parse().unwrap();
+            let count: u64 = arg(&args, "--count").unwrap().parse().unwrap();
+            exec::TRACES.with(|t| *t.borrow_mut() = Some(Vec::new()));
+            for idx in 0..count {
+                let sc = scenario::generate(&profile, &variant, seed, idx);
+                if exec::validate(&sc).is_ok() {
+                    let _ = exec::execute(&sc);
+                }
+            }
+            let traces = exec::TRACES.with(|t| t.borrow_mut().take().unwrap());
+            let v: Vec<serde_json::Value> = traces
+                .iter()
+                .map(|t| json!({"arch": t.arch, "thumb_entry": t.thumb_entry, "final_pc": t.final_pc,
+                    "insns": t.insns.iter().map(|(a, b)| json!([a, b.iter().map(|x| format!("{x:02x}")).collect::<Vec<_>>().join("")])).collect::<Vec<_>>()}))
+                .collect();
+            println!("{}", json!(v));
+        }
         Some("replay") => {
             let contained = args.iter().any(|a| a == "--contained") || true;
             let _ = contained;
